@@ -402,7 +402,21 @@ func variantsHistory(c *Ctx, id int) {
 					}
 					v := cloneBlock(b)
 					kind := ""
-					switch c.R.Intn(4) {
+					switch c.R.Intn(5) {
+					case 4:
+						// the key fields, empty on honest contract blocks, filled (on the receive or on a descendant)
+						target := v
+						kind = "receive-"
+						if len(v.DescendantBlocks) > 0 && c.R.Intn(3) == 0 {
+							target = v.DescendantBlocks[c.R.Intn(len(v.DescendantBlocks))]
+							kind = "descendant-"
+						}
+						kv := keyVariants()
+						vk := kv[c.R.Intn(len(kv))]
+						if !vk.f(c, target) {
+							continue
+						}
+						kind += vk.name
 					case 0:
 						pl := [][2]uint64{{7, 9}, {0, 1}, {1, 1}, {1, 0}, {^uint64(0), ^uint64(0)}, {21000, 21000}}[c.R.Intn(6)]
 						v.BasePlasma, v.TotalPlasma = v.BasePlasma+pl[0], v.TotalPlasma+pl[1]
